@@ -14,7 +14,7 @@ use futures_util::stream::StreamExt;
 use hickory_net::dnssec::DnssecDnsHandle;
 use hickory_net::xfer::DnsHandle;
 use hickory_proto::dnssec::rdata::{DNSSECRData, DNSKEY, DS, RRSIG};
-use hickory_proto::dnssec::{Algorithm, DigestType, DnssecSigner, Proof, SigningKey};
+use hickory_proto::dnssec::{Algorithm, DigestType, DnssecSigner, Proof};
 use hickory_proto::op::{DnsRequestOptions, Message, Query, ResponseCode};
 use hickory_proto::rr::rdata::{A, CNAME, NS, SOA, TXT};
 use hickory_proto::rr::{DNSClass, Name, RData, Record, RecordSet, RecordType};
